@@ -643,11 +643,9 @@ func executorInsertObject(ctx *ExecutionContext, target map[string]interface{}, 
 
 		// if the value we are assigning is an object
 		if newValue, ok := value.(map[string]interface{}); ok {
-			for k, v := range newValue {
-				resultLock.Lock()
-				targetObj[k] = v
-				resultLock.Unlock()
-			}
+			resultLock.Lock()
+			executorMergeObject(targetObj, newValue)
+			resultLock.Unlock()
 		}
 	} else {
 		targetObj, ok := value.(map[string]interface{})
@@ -655,13 +653,39 @@ func executorInsertObject(ctx *ExecutionContext, target map[string]interface{}, 
 			return errors.New("something went wrong")
 		}
 
-		for key, value := range targetObj {
-			resultLock.Lock()
-			target[key] = value
-			resultLock.Unlock()
-		}
+		resultLock.Lock()
+		executorMergeObject(target, targetObj)
+		resultLock.Unlock()
 	}
 	return nil
+}
+
+// executorMergeObject adds the fields of source to target. Two steps can deliver the same response
+// key under one parent (the query selects a field twice and the selections live in different
+// services): objects are then merged field by field and lists element by element, instead of the
+// later arrival replacing what the earlier one brought.
+func executorMergeObject(target map[string]interface{}, source map[string]interface{}) {
+	for key, value := range source {
+		target[key] = executorMergeValue(target[key], value)
+	}
+}
+
+func executorMergeValue(existing interface{}, value interface{}) interface{} {
+	switch value := value.(type) {
+	case map[string]interface{}:
+		if existingObj, ok := existing.(map[string]interface{}); ok {
+			executorMergeObject(existingObj, value)
+			return existingObj
+		}
+	case []interface{}:
+		if existingList, ok := existing.([]interface{}); ok && len(existingList) == len(value) {
+			for i := range value {
+				existingList[i] = executorMergeValue(existingList[i], value[i])
+			}
+			return existingList
+		}
+	}
+	return value
 }
 
 type extractorPointData struct {
